@@ -18,7 +18,8 @@
 (***************************************************************************)
 EXTENDS Integers, Sequences, FiniteSets, TLC, Json
 
-CONSTANTS Keys, Senders, PopMode, MaxSends
+CONSTANTS Keys, Senders, PopMode, MaxSends,
+          DirectSenders      \* senders addressing a node that is NOT sleeping: their send suspends in its own write
 
 VARIABLES buf,      \* parked commands: key -> value
           snap,     \* listener: entries still to write (set of <<key, value>>)
@@ -30,8 +31,10 @@ VARIABLES buf,      \* parked commands: key -> value
           sent,     \* values whose send() returned, in return order (initial parking included)
           nsent,    \* counter giving every sent value a distinct identity
           init0,    \* keys parked before the race (constant during a run)
+          dpc,      \* direct sender -> "ready" | "writing" | "done"
+          dval,     \* direct sender -> value it is writing
           hist      \* schedule so far
-vars == <<buf, snap, cur, lpc, todo, skey, wire, sent, nsent, init0, hist>>
+vars == <<buf, snap, cur, lpc, todo, skey, wire, sent, nsent, init0, dpc, dval, hist>>
 
 None == <<"none", -1>>
 Entries(b) == {<<k, b[k]>> : k \in DOMAIN b}
@@ -45,6 +48,7 @@ Init == /\ init0 \in (SUBSET Keys) \ {{}}
         /\ skey \in [Senders -> Keys]
         /\ wire = <<>> /\ nsent = 0
         /\ sent = <<>>
+        /\ dpc = [d \in DirectSenders |-> "ready"] /\ dval = [d \in DirectSenders |-> 0]
         /\ hist = <<>>
 
 InitSent == {<<k, 0>> : k \in init0}
@@ -60,7 +64,7 @@ LWake == /\ lpc = "idle"
                     /\ wire' = Append(wire, e)
                     /\ lpc' = "writing"
          /\ hist' = Append(hist, "LWake")
-         /\ UNCHANGED <<todo, skey, sent, nsent, init0>>
+         /\ UNCHANGED <<todo, skey, sent, nsent, init0, dpc, dval>>
 
 (* the pending write returns: forget the key, begin the next write (no suspension between) *)
 LStep == /\ lpc = "writing"
@@ -77,7 +81,7 @@ LStep == /\ lpc = "writing"
                         /\ wire' = Append(wire, e)
                         /\ UNCHANGED lpc
          /\ hist' = Append(hist, "LStep")
-         /\ UNCHANGED <<todo, skey, sent, nsent, init0>>
+         /\ UNCHANGED <<todo, skey, sent, nsent, init0, dpc, dval>>
 
 (* send(set command) for the sleeping node: parked in place, returns without suspending *)
 SSend(s) == /\ todo[s] > 0
@@ -87,24 +91,40 @@ SSend(s) == /\ todo[s] > 0
             /\ sent' = Append(sent, <<skey[s], nsent + 1>>)
             /\ todo' = [todo EXCEPT ![s] = @ - 1]
             /\ hist' = Append(hist, <<"SSend", s, skey[s]>>)
-            /\ UNCHANGED <<snap, cur, lpc, wire, skey, init0>>
+            /\ UNCHANGED <<snap, cur, lpc, wire, skey, init0, dpc, dval>>
+
+(* send(set command) for a node that is not sleeping: the line is handed to the transport at once *)
+(* (its key - the sender name - is never parked), the call returns when the write completes            *)
+SBegin(d) == /\ dpc[d] = "ready" /\ lpc \in {"idle", "writing", "done"}
+             /\ nsent' = nsent + 1
+             /\ dval' = [dval EXCEPT ![d] = nsent + 1]
+             /\ wire' = Append(wire, <<d, nsent + 1>>)
+             /\ dpc' = [dpc EXCEPT ![d] = "writing"]
+             /\ hist' = Append(hist, <<"SBegin", d>>)
+             /\ UNCHANGED <<buf, snap, cur, lpc, todo, skey, sent, init0>>
+SEnd(d) == /\ dpc[d] = "writing"
+           /\ sent' = Append(sent, <<d, dval[d]>>)
+           /\ dpc' = [dpc EXCEPT ![d] = "done"]
+           /\ hist' = Append(hist, <<"SEnd", d>>)
+           /\ UNCHANGED <<buf, snap, cur, lpc, todo, skey, wire, nsent, init0, dval>>
 
 (* everybody has finished; the node wakes once more (sequential flush) *)
-FinalWake == /\ lpc = "done" /\ \A s \in Senders : todo[s] = 0
+FinalWake == /\ lpc = "done" /\ \A s \in Senders : todo[s] = 0 /\ \A d \in DirectSenders : dpc[d] = "done"
              /\ \E order \in {q \in [1..Cardinality(DOMAIN buf) -> Entries(buf)] :
                                  \A e \in Entries(buf) : \E i \in DOMAIN q : q[i] = e} :
                    wire' = wire \o order
              /\ buf' = [x \in {} |-> 0]
              /\ lpc' = "final"
              /\ hist' = Append(hist, "FinalWake")
-             /\ UNCHANGED <<snap, cur, todo, skey, sent, nsent, init0>>
+             /\ UNCHANGED <<snap, cur, todo, skey, sent, nsent, init0, dpc, dval>>
 
-Next == LWake \/ LStep \/ FinalWake \/ \E s \in Senders : SSend(s)
+Next == LWake \/ LStep \/ FinalWake \/ (\E s \in Senders : SSend(s)) \/ (\E d \in DirectSenders : SBegin(d) \/ SEnd(d))
 Spec == Init /\ [][Next]_vars
 FairSpec == Spec /\ WF_vars(Next)
 
 -----------------------------------------------------------------------------
 AllSent == InitSent \cup {sent[i] : i \in 1..Len(sent)}
+           \cup {<<d, dval[d]>> : d \in {x \in DirectSenders : dpc[x] # "ready"}}     \* sends in progress count as started
 KeysSent == {e[1] : e \in AllSent} \cup {wire[i][1] : i \in 1..Len(wire)}
 LastOf(seq, k) == LET idx == {i \in 1..Len(seq) : seq[i][1] = k} IN
                   IF idx = {} THEN -1 ELSE seq[CHOOSE i \in idx : \A j \in idx : j <= i][2]
